@@ -205,18 +205,19 @@ pub fn evaluate(sc: &ChanSc, run: &ChanRun) -> Vec<Violation> {
     }
   }
 
-  // C05/C06 (idle-consumer variant): while a consumer sat idle, the channel had room, some
-  // producer still had work, and for the whole second half of the idle phase nothing at all
-  // moved: a sender is asleep although what it waits for has become possible.
+  // C05/C06 (idle-consumer variant): a consumer sat idle and for 40 consecutive scheduling
+  // rounds it was the only thread that could run at all - every other thread blocked or parked
+  // - while the channel had room and some producer had not finished: that producer is asleep
+  // in a send that has become possible. (A certificate of the state, not a timing judgement.)
   for e in evs {
-    if let EvK::Pause { rounds, used, mid: Some((ms, mr, ml)), end: (es, er, el), cap, producers_done, saw_empty } = &e.k {
-      if used == rounds && !*producers_done && ms == es && mr == er && ml == el && *el < *cap {
+    if let EvK::Pause { rounds, end: (es, er, el), cap, producers_done, saw_empty, quiescent, .. } = &e.k {
+      if *quiescent && !*producers_done && *el < *cap {
         vs.push(viol(
           sc,
           live_prop,
           "sender_stalled_while_space_available",
           &[("send_future_cancelled", evs.iter().any(|x| matches!(&x.k, EvK::Send { out, .. } if out.res == SRes::Cancelled)).to_string()), ("consumer_saw_empty", saw_empty.to_string())],
-          format!("receiver handle {} sat idle for {rounds} scheduling rounds; during the last {} of them len() stayed {el} < capacity {cap}, {es} tokens had been sent and {er} received, yet a producer that had not finished sent nothing", e.handle, rounds / 2),
+          format!("receiver handle {} sat idle (up to {rounds} scheduling rounds); for 40 consecutive rounds it was the only thread able to run, len() was {el} < capacity {cap}, {es} tokens had been sent and {er} received, yet a producer had not finished: it is asleep although it could send", e.handle),
         ));
       }
     }
